@@ -84,6 +84,10 @@ def lit_of(draw, fam, cfg, typed_ok=True):
     return ["lit", enc(v)]
 
 
+def json_key(ref):
+    return tuple(sorted(ref.items()))
+
+
 NARY = [1, 2, 2, 3, 3, 4, 5, 6]  # argument counts of n-ary operators (SQLite splits >= 4 recursively)
 
 
@@ -349,12 +353,21 @@ class ExprGen:
     # ---- aggregates ----
     def aggregate(self, fam, depth, ctx_extra=None):
         d = self.draw
+        const = getattr(self.s.t, "const_cols", set())
+        cid_of = {json_key(r): c for r, c in self.s.capt}
+        for n_, c_ in self.s.t.visible:
+            cid_of[json_key({"c": n_})] = c_
+
+        def has_real_col(e):
+            return any(nd[0] == "col" and cid_of.get(json_key(nd[1])) not in const for nd in walk_expr(e))
+
         def inner(f):
-            # the argument of an aggregate / window function refers to a column (DESIGN §4.14)
+            # the argument of an aggregate / window function refers to a column that is not a literal column
+            # (DESIGN §4.14: the engines keep literal columns as scalars)
             e = ExprGen(self.draw, self.s, self.cfg).gen(f, max(depth - 1, 0))
-            if not any(nd[0] == "col" for nd in walk_expr(e)):
+            if not has_real_col(e):
                 lf = self.leaf(f)
-                if lf[0] == "col":
+                if lf[0] == "col" and has_real_col(lf):
                     return lf
                 for f2 in ("int", "float", "str", "bool", "date", "datetime"):
                     if f2 == f:
